@@ -1,7 +1,7 @@
 from common import T_COMMON
 
 CFG = dict(
-    theorems=["edit_history_wf", "decode_encode", "norm_same", "encode_idempotent", "encode_nodes_perm", "sorted_unique",
+    theorems=["edit_history_wf", "edit_history_wf_from", "decode_encode", "norm_same", "encode_idempotent", "encode_nodes_perm", "sorted_unique",
               "natural_order_ok", "decode_encode_natural", "lexicographic_misorders", "lexicographic_order_breaks",
               "file_payload_concatenated"],
     modules=["PolyVerif.Props.C12"],
